@@ -52,6 +52,9 @@ def main():
             'caught_by': old.get('caught_by'),
             'notes': old.get('notes'),
         }
+        for k in ('neutralised_by', 'also_caught_by', 'detected_as'):
+            if k in old:
+                new[k] = old[k]
         json.dump(new, open(os.path.join(out, 'meta.json'), 'w'), indent=1)
         print('installed', name)
 
